@@ -1,3 +1,2 @@
 // placeholder
-#![allow(dead_code, unused_imports, unused_variables)]
 use super::*;
